@@ -76,6 +76,16 @@ func calcBitsPerValue(length, longs int) (bits int) {
 	return 64 / valuePerLong
 }
 
+// narrowBitsPerValue corrects the result of calcBitsPerValue: several widths can need the same
+// number of longs (13..16 bits for 4096 values, 3..4 bits for 64 values).
+// It returns the narrowest such width that is at least minBits.
+func narrowBitsPerValue(bits, length, longs, minBits int) int {
+	for bits > 1 && bits > minBits && calcBitStorageSize(bits-1, length) == longs {
+		bits--
+	}
+	return bits
+}
+
 type newBitStorageErr struct {
 	ArrlLen int
 	WantLen int
